@@ -555,6 +555,8 @@ def run(ctx):
     ctx.assumptions += [
         "A-xml (i): libxml2 turns the math strings written by the generator back into the trees the model is given (the text -> tree step is not modelled; 'XML' issues do not exist in the model and must not occur on generated cases)",
         "A-xml (iv): the W3C MathML DTD pass is not modelled: issues whose description starts with 'W3C MathML DTD error' are counted separately; on valid cases there must be none",
+        "validateUnits leaves the epoch of a followed import in its history (push without pop); the model's history is scoped, which differs observably only when an import source WITH a model has an empty (or ':this:') url, or a library model imports back into a model on the path: neither is generated",
+        "sequences: one Validator instance is re-used across validateModel calls (base, fault in place, repair in place, near copy with the same names, rebuilt) and each call is compared with the model of the world as it is then",
         "xmlParseURI is not modelled: its verdict on an import's href is an input of the model (is_url_ok); generated hrefs are a fixed set whose verdict was measured",
         "doubles: unit exponents are small dyadic rationals and multipliers powers of ten, so the validator's double arithmetic on them is exact (as in C08)",
         "unit compatibility inside validateEquivalenceUnits is C08's model (LC.UnitsDefs.val_equiv), a parameter of the C04 theorems",
